@@ -750,6 +750,7 @@ def oracle(sim: Sim, plan: dict) -> list[dict]:
                 continue
             # which key is being generated? any of the factory's keys still free/not
             busy = inflight.get((d["fid"], ctx_id))
+            sim.probe("factory_invoked")
             if busy is not None:
                 v("C04.once", "race", f"factory {d['fid']} invoked for {ctx_id} while a generation for the same context is in flight")
             if gen_done.get((d["fid"], ctx_id)):
@@ -796,6 +797,8 @@ def oracle(sim: Sim, plan: dict) -> list[dict]:
             where = f"{b['api']}({b['type']},{b['name']!r}) on {b['ctx']}"
             if out in ("cancelled", "timeout"):
                 continue
+            if path[0] == "gen" and not L["runs"] and out == "ok":
+                sim.probe("lookup_waited_for_inflight_generation")
             if path[0] == "hit":
                 if out != "ok" or val != path[1]:
                     v("C02.lookup", "hit", f"{where}: expected {path[1]}, got {out}/{val}")
@@ -867,6 +870,7 @@ def oracle(sim: Sim, plan: dict) -> list[dict]:
             where = f"@inject {b['fn']} in {b['ctx']}"
             interfered = muts.get(b["ctx"], 0) - L["mut0"] - L.get("own_muts", 0) > 0
             if interfered:
+                sim.probe("inject_interfered_relaxed")
                 # other tasks changed this context while the call was suspended in a
                 # factory: only the per-key stability rule (C03.stable) applies
                 if d["out"] == "ok" and d["vals"] is not None:
